@@ -1,6 +1,7 @@
 package checks
 
 import (
+	"bytes"
 	"encoding/json"
 	"fmt"
 	"reflect"
@@ -296,6 +297,43 @@ func (rn *c03Runner) check(name string, sp c03Spec, arg uint32, p byte, deep boo
 		}
 		if cp.Len() != ilen || cp.PC() != 0x008000+uint32(ilen) || len(cp.Bytes()) != ilen || cp.Bytes()[0] != op || orig.Len() != 0 {
 			return "unexplained:value-copy:" + name, fmt.Sprintf("%s on a value copy of a fresh emitter: copy Len=%d PC=$%06x Bytes=% x, original Len=%d; want %d bytes in the copy only", desc(), cp.Len(), cp.PC(), cp.Bytes(), orig.Len(), ilen)
+		}
+	}
+	// the target is a WINDOW of a larger array (an image patched in place): with exactly the instruction's
+	// length left it is emitted completely and nothing outside the window is written; with one byte less an
+	// accepted call would have emitted less than the instruction (Len/PC could not both advance by its
+	// length), so the call has to be refused
+	for short := 0; short <= 1; short++ {
+		arr := make([]byte, 16)
+		for i := range arr {
+			arr[i] = 0xC5
+		}
+		we := asm.NewEmitter(arr[4:4+ilen-short], rn.listing)
+		we.SetBase(0x008000)
+		we.AssumeSEP(asm.Flags(p & 0x30))
+		b, err := c03Bind(we, name)
+		if err != nil {
+			return "oracle-broken", err.Error()
+		}
+		_, wpn, _ := c03Call(b, name, arg)
+		outside := false
+		for i, v := range arr {
+			if (i < 4 || i >= 4+ilen-short) && v != 0xC5 {
+				outside = true
+			}
+		}
+		if outside {
+			return "unexplained:window-overrun:" + name, fmt.Sprintf("%s into a %d-byte window of a larger array: bytes outside the window were written: % x", desc(), ilen-short, arr)
+		}
+		if short == 0 {
+			if wpn != nil {
+				return "unexplained:window-refuses:" + name, fmt.Sprintf("%s into a window of exactly %d bytes was refused: %v", desc(), ilen, wpn)
+			}
+			if we.Len() != ilen || we.PC() != 0x008000+uint32(ilen) || !bytes.Equal(we.Bytes(), got) {
+				return "unexplained:window-length:" + name, fmt.Sprintf("%s into a window of exactly %d bytes: Len=%d PC=$%06x Bytes=% x, want % x", desc(), ilen, we.Len(), we.PC(), we.Bytes(), got)
+			}
+		} else if wpn == nil {
+			return "unexplained:partial-instruction-accepted:" + name, fmt.Sprintf("%s into a window of %d bytes (one less than the instruction) was accepted: Len=%d PC=$%06x Bytes=% x; the instruction is % x", desc(), ilen-1, we.Len(), we.PC(), we.Bytes(), got)
 		}
 	}
 	// the library's own CPUs: trace line and instruction length
